@@ -450,12 +450,15 @@ var c20FixedValid = []string{
 	"9223372036854775808ns0ns", "0ns9223372036854775808ns", "1h1h1h1h",
 	// three and more terms whose exact sum passes 2^64 (the running sum must be checked term by term)
 	"9223372036854775807ns9223372036854775807ns5ns", "2562047h2562047h2562047h", "106751d106751d106751d", "9223372036854775807ns9223372036854775807ns2ns",
+	// one component worth between 2^63 and 2^64 ns in a unit other than ns (the product must be checked, not only the sum)
+	"35m5124095h", "5124095.9h", "18446744073.8s", "42h213503d", "5124095h", "213503d", "18446744073s", "1ns5124094h", "307445734561m", "18446744073709ms1ms", "18446744073709551µs",
 	// a part whose integer portion fits while integer + fraction does not, after earlier parts that fill the sum
 	"9223372036854775808ns2562047.9h", "9223372036854775807ns2562047.99999h", "2562047h2562047.9h2562047.9h", "0ns2562047.9h", "1ns9223372036854775807.9ns", "9223372036854775807.9ns",
 	"2562047h2562047h2562047h2562047h1h", "-9223372036854775807ns9223372036854775807ns9223372036854775807ns", "4611686018427387904ns4611686018427387904ns4611686018427387904ns4611686018427387904ns1ns", "100000d10h10m10s100ms100µs100ns", "-100000d10h10m10s100ms100µs100ns",
 }
 
 var c20FixedMalformed = []string{
+	"1\u00bcs", "3h7\u03b5s", "1\u00b5", "1\u03bc", "2\u00b5\u00b5s", "1\u00c2s", "1\xc2s", "1\xb5s", "1\xce\xb5s", "1\xc2\xbcs",
 	"", "+", "-", "--1s", "+-1s", "-+1s", "++1s", ".", "..", ".s", "-.s", "+.s", "1", "-1", "1.", "1.5", "s", "d", "-d", "1..s", "1.2.3s", "1s.", "1s1",
 	"1d1", "1 s", " 1s", "1s ", "1e3s", "1E3s", "0x10s", "1_000s", "١s", "1ｓ", "1S", "1D", "1day", "1dd", "1hd", "1ds", "1sd", "1µ", "1μ", "1\xb5s",
 	"1\xc2s", "1\xc2\xb5", "1\xce\xbcs", "1\xce\xbc", "\x00", "1\x00s", "1s\x00", "0 ", " 0", "00", "0.0", "+0s-", "1s-1s", "1s+1s", "1h-5m", "1d-1d",
